@@ -15,6 +15,7 @@ import Dirk.Model.Crashes
 import Dirk.Model.Handler
 import Dirk.Props.C06
 import Dirk.Props.C16
+import Dirk.Props.KernelsEq
 
 namespace Dirk
 
@@ -81,5 +82,10 @@ theorem C20_handlers_shape (s : Inst) (c : String) (items : List (Addr × AttDat
     fewer than 2^32−1 pointer-sized entries. -/
 theorem C20_legacy_counterexample : suitableAllocLegacy (2 ^ 31) 3 (2 ^ 32 - 1) = .error .outOfMemory := by
   simp [suitableAllocLegacy]
+
+/-- **tie by translation.** The bound check `C20_alloc_bounded` relies on is the guard translated on every run from the
+    Go source of `Suitable` (peers/static/service.go), and it comes BEFORE the allocation. -/
+theorem C20_kernel_is_source (npeers n : Nat) : suitableAlloc npeers n = .ok (Gen.suitableAllocGen n npeers) :=
+  suitableAlloc_eq_gen npeers n
 
 end Dirk
